@@ -225,9 +225,11 @@ fn plan(args: &Args) -> Vec<Group> {
                     } as usize;
                     cases.push(CaseSpec { size, variant: rng.below(nv as u64) as u32, boundary: false, q: 0, unknown: false });
                 }
-                if args.thorough() {
-                    // larger than the library's own 16 MiB default: only an unguarded endpoint may send it
-                    cases.push(CaseSpec { size: MIB16 + 4097, variant: 0, boundary: false, q: 0, unknown: false });
+                // larger than the library's own 16 MiB default frame size: with the guard switched off there is no limit at all,
+                // so these are delivered unchanged (the raw peers accept any size)
+                let big: &[usize] = if args.thorough() { &[MIB16, MIB16 + 1, MIB16 + 4097, 2 * MIB16 + 3] } else { &[MIB16 + 1, MIB16 + 4097] };
+                for &size in big {
+                    cases.push(CaseSpec { size, variant: rng.below(nv as u64) as u32, boundary: true, q: 0, unknown: false });
                 }
             }
             rng.shuffle(&mut cases);
